@@ -131,7 +131,7 @@ def validate_impl(scn, fixes, lines, workdir, name='TR', timeout=600, chunk=400)
     t_begin = time.time()
     for c0 in range(0, len(groups), chunk):
         part = groups[c0:c0 + chunk]
-        if time.time() - t_begin > 3 * timeout:
+        if time.time() - t_begin > 2 * timeout:
             total['not_validated_in_time'] += len(part)
             continue
         res = _validate_impl_once(scn, fixes, [l for g in part for l in g], workdir, name, timeout)
@@ -220,13 +220,13 @@ def monitor_obs(scn, fixes, lines, workdir, name='OT', timeout=600, recs=None, c
             rep[key] = run
             members[key] = []
         members[key].append(run[0]['run'])
-    # The distinct projections are judged in chunks, each under the time limit; when the whole pass has used three times the limit the
+    # The distinct projections are judged in chunks, each under the time limit; when the whole pass has used twice the limit the
     # remaining projections are left unjudged (counted, reported in the evidence) instead of failing the check
     reps = list(rep.values())
     runs, outs, wall, unjudged, t_begin = {}, [], 0.0, 0, time.time()
     for c0 in range(0, len(reps), chunk):
         part = reps[c0:c0 + chunk]
-        if time.time() - t_begin > 3 * timeout:
+        if time.time() - t_begin > 2 * timeout:
             unjudged += len(part)
             continue
         uniq = [r for run in part for r in run]
